@@ -326,3 +326,9 @@ Proof.
   - destruct (ends_with_stop (tc_steps k)) eqn:Es; [|reflexivity].
     rewrite (run_split _ _ _ _ R Es J0). reflexivity.
 Qed.
+
+(* a failing exit (leaving_fails) abandons the transition before the timer is stopped *)
+Lemma failed_exit_keeps_timer d s e dur nxt :
+  target d s e = Ok (Some nxt) -> leaving_fails d s = true ->
+  do_event d s e dur = (s, Err EUnknownEvent).
+Proof. intros Ht Hl. unfold do_event. now rewrite Ht, Hl. Qed.
